@@ -40,9 +40,12 @@ pub fn frame_of(r: &Rec) -> Vec<u8> {
     // one identification in five carries a character code the 6-bit alphabet does not assign (garbled reception)
     let chars = |v: u64| -> [u8; 8] { [(1 + i) as u8, 3, 1 + (v % 26) as u8, 48 + ((v / 26) % 10) as u8, 48 + ((v / 260) % 10) as u8, if v % 5 == 0 { [0u8, 27, 31, 33, 47, 58, 63][(v / 5 % 7) as usize] } else { 32 }, 32, 32] };
     let squawk = |v: u64| enc::id13((i + 1) as u8, (v % 8) as u8, ((v / 8) % 8) as u8, ((v / 64) % 8) as u8);
+    // DF18 records come under every control field (ADS-B from non-transponder devices with an ICAO / another address,
+    // TIS-B fine / coarse, management, relay, rebroadcast, reserved): the announced address is shown whatever it is
+    let cf = ((v / 3) % 8) as u8;
     match KINDS[r.kind as usize % KINDS.len()] {
         "df17-bds08" => enc::df17(5, a, &enc::me_ident(4, (v % 8) as u8, &chars(v))),
-        "df18-bds08" => enc::df18(2, a, &enc::me_ident(2, 1, &chars(v))),
+        "df18-bds08" => enc::df18(cf, a, &enc::me_ident(2, 1, &chars(v))),
         // airborne positions are real: encoded from a point of the 3 km wide region this aircraft owns (regions are
         // 20 km apart in both coordinates), so that a position put together from two aircraft's reports lands outside both
         "df17-bds05" | "df18-bds05" => {
@@ -52,7 +55,7 @@ pub fn frame_of(r: &Rec) -> Vec<u8> {
             if KINDS[r.kind as usize % KINDS.len()] == "df17-bds05" {
                 enc::df17(5, a, &me)
             } else {
-                enc::df18(2, a, &me)
+                enc::df18(cf, a, &me)
             }
         }
         "df17-bds06" | "df18-bds06" => {
@@ -62,7 +65,7 @@ pub fn frame_of(r: &Rec) -> Vec<u8> {
             if KINDS[r.kind as usize % KINDS.len()] == "df17-bds06" {
                 enc::df17(4, a, &me)
             } else {
-                enc::df18(2, a, &me)
+                enc::df18(cf, a, &me)
             }
         }
         "df17-bds09-ground" => enc::df17(5, a, &enc::me_velocity(&VelocityMe { subtype: 1, ic: 0, ifr: 0, nac: 0, body22: enc::vel_ground_body((v & 1) as u8, (100 * i + 10 + v % 90) as u16, ((v >> 1) & 1) as u8, (100 * i + 20 + (v / 2) % 80) as u16), vr_src: 0, vr_sign: (v & 1) as u8, vr: (60 * i + 2 + v % 58) as u16, reserved: 0, dif_sign: 0, dif: 0 })),
@@ -448,8 +451,33 @@ fn history() -> impl Strategy<Value = Vec<Rec>> {
     })
 }
 
+/// Long histories: one or two busy aircraft among quiet ones that are heard once or a few times, over minutes to
+/// hours (counters, periodic clean-ups and bounded tables only show beyond a few hundred / thousand / 65 536 records).
+fn long_history() -> impl Strategy<Value = Vec<Rec>> {
+    (1100usize..5000, 2u8..=6, any::<u64>(), prop_oneof![Just(1_700_000_000.0f64), Just(0.0f64), Just(4_294_960_000.5f64)]).prop_map(|(n, nac, salt, t0)| long_hist_of(n, nac, salt, t0))
+}
+
+pub fn long_hist_of(n: usize, nac: u8, salt: u64, t0: f64) -> Vec<Rec> {
+    let mut r = SplitMix::new(salt);
+    let mut t = t0;
+    let busy = (r.below(nac as u64)) as u8;
+    // 94 %, 99 % or 99.8 % of the records belong to the busy aircraft; the others are heard now and then, or once
+    let quiet_per_mille = [60u64, 10, 2][r.below(3) as usize];
+    (0..n)
+        .map(|_| {
+            let ac = if r.below(1000) >= quiet_per_mille { busy } else { r.below(nac as u64) as u8 };
+            t += match r.below(100) {
+                0 => 61.0 + r.below(600) as f64,
+                1..=4 => 3.0 + r.below(20) as f64,
+                _ => (r.below(900) as f64) / 1000.0,
+            };
+            Rec { ac, kind: r.below(KINDS.len() as u64) as u8, val: r.next() as u16, ts: t }
+        })
+        .collect()
+}
+
 pub fn run(ctx: &Ctx) {
-    ctx.set_rule("histories of 1-119 records from 1-6 aircraft (addresses sharing prefixes and suffixes) over 22 record kinds: DF17 identification / airborne / surface / ground velocity / airspeed / status / target state / operational status, DF18 airborne / surface / identification, DF0, 4, 5, 11, 16, DF20 with BDS 2,0 / 4,0 / the 5,0+6,0 conflict payload, DF21 with BDS 5,0 / 6,0, and DF19/24 records that carry no address; every value comes from a band owned by its aircraft, positions are injected per record; one identification in five carries an unassigned 6-bit character; clocks start at Unix time, at 0 s, within the first second, at 1000 s or beyond 2^32 s; timestamps mostly increasing, sometimes equal or decreasing. Replayed through the real update_snapshot (hook H2) and read back as /all serialises it. Oracle: key set = addresses of the address-carrying records; count, firstseen, lastseen per key from independent bookkeeping; every non-null call sign, squawk, position, altitude, speed, angle, NACp of an entry occurs in the JSON of one of that aircraft's own records; the entry of each aircraft is identical when only its own records are fed. End to end: the distinct frames of such a history are served to the real jet1090 binary as a Beast TCP source and the table is read from its /all endpoint: key set, count per aircraft, seen times inside the run, and every value of an entry occurs in a record jet1090 printed for that aircraft; airborne positions are encoded from a region owned by the aircraft, and what the application attaches to an airborne report must lie in that region. Non-trivial = >= 2 aircraft and >= 3 record kinds; distinct by hash of the history.");
+    ctx.set_rule("histories of 1-119 records from 1-6 aircraft (addresses sharing prefixes and suffixes) over 22 record kinds: DF17 identification / airborne / surface / ground velocity / airspeed / status / target state / operational status, DF18 airborne / surface / identification under each of the eight control fields, DF0, 4, 5, 11, 16, DF20 with BDS 2,0 / 4,0 / the 5,0+6,0 conflict payload, DF21 with BDS 5,0 / 6,0, and DF19/24 records that carry no address; every value comes from a band owned by its aircraft, positions are injected per record; one identification in five carries an unassigned 6-bit character; clocks start at Unix time, at 0 s, within the first second, at 1000 s or beyond 2^32 s; timestamps mostly increasing, sometimes equal or decreasing; long histories of 1100-5000 records (one busy aircraft among quiet ones heard once or a few times, gaps of minutes) and one of more than 65 536 records of one aircraft. Replayed through the real update_snapshot (hook H2) and read back as /all serialises it. Oracle: key set = addresses of the address-carrying records; count, firstseen, lastseen per key from independent bookkeeping; every non-null call sign, squawk, position, altitude, speed, angle, NACp of an entry occurs in the JSON of one of that aircraft's own records; the entry of each aircraft is identical when only its own records are fed. End to end: the distinct frames of such a history are served to the real jet1090 binary as a Beast TCP source and the table is read from its /all endpoint: key set, count per aircraft, seen times inside the run, and every value of an entry occurs in a record jet1090 printed for that aircraft; airborne positions are encoded from a region owned by the aircraft, and what the application attaches to an airborne report must lie in that region. Non-trivial = >= 2 aircraft and >= 3 record kinds; distinct by hash of the history.");
     ctx.assume("positions are attached by decode_position before update_snapshot in the application; the scenario injects them so that each record carries a unique value");
     ctx.assume("registration and typecode come from the aircraft database / address heuristics, not from records: outside the provenance check");
     let pool = Pool::new(16);
@@ -477,6 +505,24 @@ pub fn run(ctx: &Ctx) {
             check_hist(ctx, &pool, h)
         });
     });
+    // long histories (1100-5000 records; one of more than 65 536 records of one aircraft)
+    let n = ctx.tier.pick(32u32, 480u32);
+    (0..shards).into_par_iter().for_each(|s| {
+        run_prop(ctx, &format!("long-{s}"), n / shards, long_history(), |h| {
+            ctx.class("long history (1100-5000 records, a busy aircraft among quiet ones, minutes to hours)");
+            check_hist(ctx, &pool, h)
+        });
+    });
+    {
+        let mut h = long_hist_of(ctx.tier.pick(72_000usize, 140_000usize), 3, ctx.sub("very-long"), 1_700_000_000.0);
+        // no gaps: the busy aircraft's records stay within the hour
+        for (i, r) in h.iter_mut().enumerate() {
+            r.ts = 1_700_000_000.0 + i as f64 * 0.02;
+        }
+        ctx.class("very long history (more than 65 536 records of one aircraft)");
+        let r = check_hist(ctx, &pool, &h).map_err(|e| Failure::new(e.signature, e.detail, json!({"kind": "very-long", "n": h.len(), "salt": ctx.sub("very-long").to_string()})));
+        ctx.judge(r);
+    }
     // the same kind of history through the whole application, served over TCP and read back from /all
     match crate::e2e::Env::from_env() {
         Some(env) => {
@@ -504,6 +550,16 @@ pub fn replay(ctx: &Ctx, v: &Value) {
         };
         ctx.eval();
         ctx.judge(replay_e2e(ctx, &env, &crate::e2e::scenario_of(&v["scenario"]), v, "c12-replay"));
+        return;
+    }
+    if v["kind"] == "very-long" {
+        let pool = Pool::new(1);
+        let salt = v["salt"].as_str().and_then(|s| s.parse::<u64>().ok()).unwrap_or(0);
+        let mut h = long_hist_of(v["n"].as_u64().unwrap_or(72_000) as usize, 3, salt, 1_700_000_000.0);
+        for (i, r) in h.iter_mut().enumerate() {
+            r.ts = 1_700_000_000.0 + i as f64 * 0.02;
+        }
+        ctx.judge(check_hist(ctx, &pool, &h));
         return;
     }
     let pool = Pool::new(1);
